@@ -9,7 +9,7 @@ import math
 import numpy as np
 import scipy.special
 
-from .ir import IllTyped, Unsupported, typecheck
+from .ir import IllConditioned, IllTyped, Unsupported, typecheck
 
 F = np.float64
 
@@ -95,6 +95,15 @@ def apply_binary(op, params, a, b):
         if op in ("and_", "or_", "xor") and not (a.dtype == bool and b.dtype == bool):
             f = {"and_": np.bitwise_and, "or_": np.bitwise_or, "xor": np.bitwise_xor}[op]
             return f(a.astype(np.int64), b.astype(np.int64))
+        if op in ("eq", "ne", "lt", "le", "gt", "ge"):
+            if a.dtype.kind == "f" or b.dtype.kind == "f":
+                d = np.abs(a.astype(F) - b.astype(F))
+                af = a.astype(F)
+                nice = np.all(af * 64 == np.round(af * 64)) and np.all(b.astype(F) * 64 == np.round(b.astype(F) * 64))
+                tie = d <= 1e-9 * (1 + np.abs(af))
+                if np.any(tie & (d > 0)) or (np.any(tie) and not nice):
+                    raise IllConditioned("comparison of (almost) equal reals that are not exactly representable")
+            return BIN[op](a, b).astype(np.int64)  # a bounded integer in {0, 1}, not a numpy boolean (True + True must be 2)
         if op in BIN:
             return BIN[op](a, b)
     raise Unsupported("binary " + op)
@@ -162,7 +171,8 @@ def ref_eval(ir, env):
     if k == "num":
         return ir[1]
     if k == "ten":
-        return np.asarray(ir[1])[tuple(int(env[n]) for n in ir[2])]
+        v = np.asarray(ir[1])[tuple(int(env[n]) for n in ir[2])]
+        return v.astype(np.int64) if v.dtype == bool else v  # a bounded integer in {0, 1}; numpy booleans add as logical-or
     if k == "slice":
         return ir[2] + ir[4] * int(env[ir[1]])
     if k in ("align",):
